@@ -1,27 +1,37 @@
 """C18 — results do not depend on what was processed before.
 
 Suites
-  HISTORY          sequences of 2-6 operations (parse / re-walk / compare / merge-compare / lint /
-                   merge_channels / serialize / filter, mozpath and Matcher queries / editing a
-                   configuration) drawn from a pool of ~100 operations over files of all seven
-                   formats.  Every sequence runs in a child forked from a pristine parent (state =
-                   a fresh import); every operation of the pool is also run ALONE in a fresh
-                   interpreter (one subprocess per operation).  Compared per operation:
-                     oracle   result in the history == result in the fresh interpreter (junk ids
-                              inside the keys of Junk entries canonicalised, everything else plain)
-                     model    output (entry objects with their actual junk ids, read through their
-                              own context) and the whole observable process state after the
-                              operation (Junk.junkid, every parser singleton's ctx contents and
-                              filter flag, DTDChecker.texthandler.textcontent, ProjectConfig._cache
-                              locale, mozpath.re_cache keys, Matcher._cached_re) == the extracted
-                              state machine of coq/Model/History.v fed with the fresh results
-                   and, at the end of a sequence, every entry object obtained earlier is read again
-                   (key, raw_val, all, position) and must be unchanged.
-  UNION            compareProjects over a generated tree, for several permutations of which
-                   content goes under which file name (= processing order) and for every
-                   single-file project: details per content and summaries must be the union / sum.
-  WITNESS          the minimal sequences of the three history dependences found (junk id leaking
+  WITNESS          the minimal sequences of the three history dependences found (Junk.junkid leaking
                    through a key collision, second walk of a .inc context, stale FilterCache).
+  CORPUS-*         minimised past model/implementation disagreements (corpus/C18/*.json), run first.
+  HISTORY[-roundN] per round: a pool of ~160 operations (parse / re-walk / compare / merge-compare /
+                   lint / merge_channels / serialize / filter, mozpath and Matcher queries / editing
+                   a configuration) over seeded files of all seven formats; every operation of the
+                   pool is run ALONE in a fresh interpreter (one subprocess per operation); then
+                   random sequences of 2-6 operations (one in fifteen a chain of 30), every
+                   operation once after a state-heavy prefix, and ALL ordered pairs inside each
+                   family sharing a cache or a parser singleton.  Every sequence runs in a child
+                   forked from a pristine parent (state = a fresh import).  Per operation:
+                     oracle   result in the history == result in the fresh interpreter (the numeric
+                              id inside the keys of Junk entries canonicalised, everything else plain)
+                     model    output (entry objects with their ACTUAL junk ids, read through their
+                              own context) and the whole observable process state after the
+                              operation (Junk.junkid, XMLJunk.junkid, every parser singleton's ctx
+                              contents and filter flag, DTDChecker.texthandler.textcontent,
+                              ProjectConfig._cache locale, mozpath.re_cache keys, Matcher._cached_re)
+                              == the extracted state machine of coq/Model/History.v fed with the
+                              fresh results; where a junk key collides with an entity key the model
+                              says so instead of predicting, and that verdict must agree with the
+                              harness's own computation
+                   and, at the end of a sequence, every entry object obtained earlier is read again
+                   (key, raw_val, all, positions, value, word count) and must be unchanged.
+  UNION[-after-history-N]
+                   compareProjects over a generated tree, for several permutations of which
+                   content goes under which file name (= processing order) and for every
+                   single-file project, fresh and after a random history: details per content and
+                   summaries must be the union / sum; the observer model fed with the single-file
+                   contributions must give the multi-file report.
+  JUNK-KEY         the model's rendering of "_junk_%d_%d-%d".
 
 Usage as a subprocess: `python -m harness.props.c18 --baseline` reads one job (JSON) on stdin,
 runs it in this fresh interpreter and prints the result (JSON).
@@ -1271,7 +1281,16 @@ PROPOSED_FINDINGS = [
 
 # ========================================================================= run ===
 def draw_history(rng, ops, weights, n):
-    return [rng.choices(ops, weights)[0] if weights else rng.choice(ops) for _ in range(n)]
+    seq = [rng.choices(ops, weights)[0] if weights else rng.choice(ops) for _ in range(n)]
+    # the baselines know each configuration up to a fixed number of edits
+    done, out = {}, []
+    for o in seq:
+        if o["k"] == "reconfig":
+            done[o["c"]] = done.get(o["c"], 0) + 1
+            if done[o["c"]] > len(CONFIGS[o["c"]]["extra"]) + 2:
+                continue
+        out.append(o)
+    return out
 
 
 WEIGHT = {"parse": 6, "rewalk": 1.5, "compare": 5, "lint": 3, "merge": 2.5, "serialize": 2.5,
@@ -1423,6 +1442,14 @@ def run(chk, runner_ok):
     t0 = time.time()
     # ---- the minimal witnesses of the known history dependences (always first) ----
     witnesses(chk)
+    # ---- corpus: minimised past disagreements ---------------------------------------
+    cdir = os.path.join(common.VERIF, "corpus", "C18")
+    for name in sorted(os.listdir(cdir)) if os.path.isdir(cdir) else []:
+        if name.endswith(".json"):
+            texts, ops, seq = undescribe(json.load(open(os.path.join(cdir, name)))["sequence"])
+            tables, base_by_id, parse_base, intern, _ = measure(texts, ops, par=8)
+            check_histories(chk, model, texts, [seq], tables, base_by_id, parse_base, intern,
+                            "CORPUS-" + name[:-5])
     # ---- histories: per round a new pool, its fresh baselines, its sequences -----------
     rounds = chk.n(1, 3)
     for rnd in range(rounds):
